@@ -20,7 +20,7 @@ FAM = {
         "bound_U": "(bound(U: Copy))", "bound_TU": "(bound(T: Clone, U: Copy))", "legacy_fmt": '(fmt = "x")', "legacy_bound": '(bound = "T: Clone")',
         "unknown": "(frobnicate)"}),
     "fmt_enum": dict(derives=["Display"], item="{A} enum S {{ FooBar, Baz }}", name="display", atoms={
-        "lit": '("x")', "rename_snake": '(rename_all = "snake_case")', "rename_snake2": '(rename_all = "snake_case")',
+        "lit": '("x")', "lit_wrap": '("<{_variant}>")', "rename_snake": '(rename_all = "snake_case")', "rename_snake2": '(rename_all = "snake_case")',
         "rename_kebab": '(rename_all = "kebab-case")', "rename_bad": '(rename_all = "bogus_case")', "unknown": "(frobnicate)"}),
     "debug_field": dict(derives=["Debug"], item="struct S {{ {A} a: i32, b: u8 }}", name="debug", atoms={
         "skip": "(skip)", "ignore": "(ignore)", "lit": '("{a}")', "unknown": "(frobnicate)"}),
